@@ -52,9 +52,9 @@ def _parse(stdout):
 
 
 def run_miri(tier, seed, mon, env, log):
-    """quick: 16 of 96 shards of the tiny subset (rotating with the seed); thorough: all 32 of 32."""
+    """quick: 16 of 128 shards of the tiny subset (rotating with the seed); thorough: all 32 of 32."""
     if tier == "quick":
-        nshards, first = 96, (seed * 16) % 96
+        nshards, first = 128, (seed * 16) % 128
         shards = [(first + i) % nshards for i in range(16)]
         timeout = 900
     else:
